@@ -263,4 +263,419 @@ theorem oddIdx_sorted : ∀ (l : List Nat) (i : Nat),
       · have := this.2 x h; omega
     · exact ⟨this.1, fun x hx => by have := this.2 x hx; omega⟩
 
+/-! ## Positions at list level -/
+
+def shiftT (k : Nat) (t : Nat × Nat × Nat) : Nat × Nat × Nat := (t.1 + k, t.2.1 + k, t.2.2 + k)
+
+theorem discPositions_shift (k : Nat) : ∀ (ms : List Bool) (xs : List Item) (acc : Nat),
+    discPositions ms xs (acc + k) = (discPositions ms xs acc).map (shiftT k) := by
+  intro ms
+  induction ms with
+  | nil => intro xs acc; cases xs <;> simp [discPositions]
+  | cons m ms ih =>
+    intro xs acc
+    cases xs with
+    | nil => simp [discPositions]
+    | cons x xs =>
+      cases m with
+      | false =>
+        simp only [discPositions, Bool.false_eq_true, if_false]
+        rw [← ih xs (acc + (lettersI x).length)]
+        congr 1; omega
+      | true =>
+        simp only [discPositions, if_true]
+        cases x with
+        | disc pre post rc =>
+          simp only [List.map_cons, ih xs acc, shiftT]
+          congr 2
+          · omega
+          · congr 1; omega
+        | _ => exact ih xs acc
+
+theorem coveredBy_shift (k : Nat) (T : List (Nat × Nat × Nat)) (p : Nat) :
+    coveredBy (T.map (shiftT k)) (p + k) = coveredBy T p := by
+  induction T with
+  | nil => rfl
+  | cons t T ih =>
+    simp only [coveredBy, List.map_cons, List.any_cons, shiftT] at ih ⊢
+    rw [ih]
+    congr 1
+    have e1 : decide (t.1 + k < p + k) = decide (t.1 < p) := by simp
+    have e2 : decide (p + k < t.2.2 + k) = decide (p < t.2.2) := by simp
+    rw [e1, e2]
+
+/-- Triples `T` and allowed positions `E` of a segment that starts after `acc` letters. -/
+structure PosOK (T : List (Nat × Nat × Nat)) (E : List Nat) (acc : Nat) : Prop where
+  eq : T.map (·.1) = E.filter (fun p => !coveredBy T p)
+  loT : ∀ t ∈ T, acc < t.1
+  loE : ∀ e ∈ E, acc < e
+
+theorem PosOK.nil (acc : Nat) : PosOK [] [] acc := ⟨rfl, by simp, by simp⟩
+
+theorem PosOK.mono {T E acc acc'} (h : PosOK T E acc) (hle : acc' ≤ acc) : PosOK T E acc' :=
+  ⟨h.eq, fun t ht => by have := h.loT t ht; omega, fun e he => by have := h.loE e he; omega⟩
+
+theorem PosOK.append {Tw Tr : List (Nat × Nat × Nat)} {Ew Er : List Nat} {acc mid : Nat}
+    (hw : PosOK Tw Ew acc) (hr : PosOK Tr Er mid) (hle : acc ≤ mid)
+    (upT : ∀ t ∈ Tw, t.2.2 ≤ mid) (upE : ∀ e ∈ Ew, e < mid) :
+    PosOK (Tw ++ Tr) (Ew ++ Er) acc := by
+  refine ⟨?_, ?_, ?_⟩
+  · rw [List.map_append, List.filter_append, hw.eq, hr.eq]
+    congr 1
+    · apply List.filter_congr
+      intro e he
+      have : coveredBy Tr e = false := by
+        simp only [coveredBy, List.any_eq_false, Bool.and_eq_true, decide_eq_true_eq, not_and]
+        intro t ht h1
+        have := hr.loT t ht; have := upE e he; omega
+      simp [coveredBy, List.any_append] at this ⊢
+      intro _
+      exact this
+    · apply List.filter_congr
+      intro e he
+      have : coveredBy Tw e = false := by
+        simp only [coveredBy, List.any_eq_false, Bool.and_eq_true, decide_eq_true_eq, not_and]
+        intro t ht _
+        have := upT t ht; have := hr.loE e he; omega
+      simp [coveredBy, List.any_append] at this ⊢
+      intro h1 x x1 x2 hx
+      exact this x x1 x2 hx
+  · intro t ht
+    rcases List.mem_append.mp ht with h | h
+    · exact hw.loT t h
+    · have := hr.loT t h; omega
+  · intro e he
+    rcases List.mem_append.mp he with h | h
+    · exact hw.loE e h
+    · have := hr.loE e h; omega
+
+/-- One rebuilt word, placed after `acc` letters. -/
+theorem word_posOK {eng : Engine} (he : EngineOK eng) (font : Nat) (s : List Nat) (rbo : Option Nat) (dlb : Bool)
+    (pos : List Nat) (w : List (Item × Bool)) (acc : Nat)
+    (hsorted : pos.Pairwise (· < ·)) (hrange : ∀ p ∈ pos, 1 ≤ p ∧ p < s.length)
+    (h : rebuildWord eng font s rbo dlb pos = some w) :
+    PosOK (discPositions (mk w) (it w) acc) (pos.map (· + acc)) acc ∧
+      (∀ t ∈ discPositions (mk w) (it w) acc, t.2.2 ≤ acc + s.length) ∧
+      (∀ e ∈ pos.map (· + acc), e < acc + s.length) := by
+  obtain ⟨heq, hb⟩ := rebuildWord_positions_full he font s rbo dlb pos w hsorted
+    (fun p hp => ⟨(hrange p hp).1, Nat.le_of_lt (hrange p hp).2⟩) h
+  have hshift : discPositions (mk w) (it w) acc = (discPositions (mk w) (it w) 0).map (shiftT acc) := by
+    have := discPositions_shift acc (mk w) (it w) 0
+    simpa using this
+  refine ⟨⟨?_, ?_, ?_⟩, ?_, ?_⟩
+  · rw [hshift, List.map_map]
+    have : ((fun t : Nat × Nat × Nat => t.1) ∘ shiftT acc) = (fun p => p + acc) ∘ (fun t => t.1) := by
+      funext t; simp [shiftT]
+    rw [this, ← List.map_map, heq, List.filter_map]
+    congr 1
+    apply List.filter_congr
+    intro p _
+    simp only [Function.comp]
+    rw [coveredBy_shift]
+  · intro t ht
+    rw [hshift] at ht
+    simp only [List.mem_map] at ht
+    obtain ⟨t0, ht0, rfl⟩ := ht
+    have := (hb t0 ht0).1
+    simp only [shiftT]; omega
+  · intro e he
+    simp only [List.mem_map] at he
+    obtain ⟨p, hp, rfl⟩ := he
+    have := (hrange p hp).1; omega
+  · intro t ht
+    rw [hshift] at ht
+    simp only [List.mem_map] at ht
+    obtain ⟨t0, ht0, rfl⟩ := ht
+    have := (hb t0 ht0).2
+    simp only [shiftT]; omega
+  · intro e he
+    simp only [List.mem_map] at he
+    obtain ⟨p, hp, rfl⟩ := he
+    have := (hrange p hp).2; omega
+
+/-- A copied prefix contributes no triple and advances the letter count. -/
+theorem discPositions_prefix (x : Item) (pre : List Item) (t : List (Item × Bool)) (acc : Nat) :
+    discPositions (mk ((x, false) :: unmarkedL pre ++ t)) (it ((x, false) :: unmarkedL pre ++ t)) acc
+      = discPositions (mk t) (it t) (acc + (lettersI x).length + (lettersL pre).length) := by
+  have hun : Unmarked ((x, false) :: unmarkedL pre) := by
+    intro y hy
+    rcases List.mem_cons.mp hy with rfl | h
+    · rfl
+    · exact unmarkedL_unmarked pre y h
+  have := discPositions_append ((x, false) :: unmarkedL pre) t (P2_unmarked _ hun) acc
+  rw [List.cons_append] at this
+  refine this.trans ?_
+  rw [discPositions_unmarked _ hun, erase_unmarked _ hun]
+  simp only [List.nil_append, it, List.map_cons]
+  have e : (unmarkedL pre).map (·.1) = pre := it_unmarkedL pre
+  rw [e, lettersL_cons, List.length_append, Nat.add_assoc]
+
+theorem wordPositions_ok (lhm rhm : Int) (len : Nat) (raw : List Nat) (hraw : raw.Pairwise (· < ·)) :
+    (wordPositions lhm rhm len raw).Pairwise (· < ·) ∧
+      ∀ p ∈ wordPositions lhm rhm len raw, 1 ≤ p ∧ p < len := by
+  unfold wordPositions
+  rw [drain_eq_filter]
+  refine ⟨List.Pairwise.sublist List.filter_sublist hraw, ?_⟩
+  intro p hp
+  simp only [List.mem_filter, inRange, decide_eq_true_eq, effMin] at hp
+  have h1 : 1 ≤ (if lhm ≤ 0 then 1 else lhm.toNat) := by split <;> omega
+  have h2 : 1 ≤ (if rhm ≤ 0 then 1 else rhm.toNat) := by split <;> omega
+  omega
+
+/-- The positions of the whole pass: the break positions of all inserted discretionaries are the
+allowed positions of all rebuilt words (absolute letter offsets) that no discretionary covers. -/
+theorem hyphList_posOK {eng : Engine} (he : EngineOK eng) (lhm rhm : Int) (liang : List Nat → List Nat)
+    (hliang : ∀ s, (liang s).Pairwise (· < ·)) :
+    ∀ (fuel : Nat) (l : List Item) (out : List (Item × Bool)) (acc : Nat),
+      hyphList eng lhm rhm liang fuel l = some out →
+      PosOK (discPositions (mk out) (it out) acc) (expectedG lhm rhm liang fuel l acc) acc := by
+  intro fuel
+  induction fuel with
+  | zero =>
+    intro l out acc h
+    simp only [hyphList, hyphListG, Option.some.injEq] at h
+    subst h
+    rw [discPositions_unmarked _ (unmarkedL_unmarked l)]
+    exact PosOK.nil acc
+  | succ fuel ih =>
+    intro l out acc h
+    cases l with
+    | nil =>
+      simp only [hyphList, hyphListG, Option.some.injEq] at h
+      subst h
+      exact PosOK.nil acc
+    | cons x xs =>
+      simp only [hyphList, hyphListG] at h
+      simp only [expectedG]
+      have cont : ∀ (k : Nat), (hyphListG (rebuildWord eng) lhm rhm liang fuel (xs.drop k)).map
+          (fun t => (x, false) :: unmarkedL (xs.take k) ++ t) = some out →
+          PosOK (discPositions (mk out) (it out) acc)
+            (expectedG lhm rhm liang fuel (xs.drop k) (acc + (lettersI x).length + (lettersL (xs.take k)).length)) acc := by
+        intro k hm
+        simp only [Option.map_eq_some_iff] at hm
+        obtain ⟨t, ht, rfl⟩ := hm
+        rw [discPositions_prefix]
+        exact (ih _ t _ ht).mono (by omega)
+      split at h
+      · rename_i hng
+        rw [if_pos hng]
+        simp only [Option.map_eq_some_iff] at h
+        obtain ⟨t, ht, rfl⟩ := h
+        show PosOK (discPositions (mk t) (it t) (acc + (lettersI x).length)) _ _
+        exact (ih _ t _ ht).mono (by omega)
+      · rename_i hng
+        rw [if_neg hng]
+        split at h
+        · exact cont _ h
+        · rename_i f hf
+          split at h
+          · rename_i he'; rw [if_pos he']; exact cont _ h
+          · rename_i he'; rw [if_neg he']
+            split at h
+            · rename_i ht; rw [if_pos ht]; exact cont _ h
+            · rename_i ht; rw [if_neg ht]
+              split at h
+              · rename_i hp; rw [if_pos hp]; exact cont _ h
+              · rename_i hp; rw [if_neg hp]
+                split at h
+                · cases h
+                · rename_i w hw
+                  simp only [Option.map_eq_some_iff] at h
+                  obtain ⟨t, ht', rfl⟩ := h
+                  generalize hk : (seek false xs 0).1 = k at *
+                  generalize hg : gather f (xs.drop k) [] 0 = g at *
+                  have hwp := wordPositions_ok lhm rhm g.1.length (liang g.1) (hliang g.1)
+                  -- the word segment and the rest
+                  have hpre := discPositions_prefix x (popBoundaryLig f (xs.take k) (startsWithLB (xs.drop k).head?)).1 (w ++ t) acc
+                  rw [List.append_assoc]
+                  rw [hpre, popBoundaryLig_letters]
+                  have hacc : acc ≤ acc + (lettersI x).length + (lettersL (xs.take k)).length := by omega
+                  generalize acc + (lettersI x).length + (lettersL (xs.take k)).length = accW at hacc ⊢
+                  obtain ⟨base, -, hp2⟩ := rebuildWord_base he _ _ _ _ _ w hw
+                  rw [discPositions_append w t hp2 accW]
+                  have hlen : (lettersL (erase (mk w) (it w))).length = g.1.length := by
+                    rw [base, lettersL_toItem, he.spell]
+                  rw [hlen]
+                  obtain ⟨pw, upT, upE⟩ := word_posOK he f g.1 _ _ _ w accW hwp.1 hwp.2 hw
+                  have hr := ih _ t (accW + g.1.length) ht'
+                  exact (PosOK.append pw hr (by omega) upT upE).mono (by omega)
+
+/-! ## Fuel of `expectedG` -/
+
+theorem expectedG_fuel (lhm rhm : Int) (liang : List Nat → List Nat) :
+    ∀ (n f1 f2 : Nat) (l : List Item) (acc : Nat), l.length ≤ n → n < f1 → n < f2 →
+      expectedG lhm rhm liang f1 l acc = expectedG lhm rhm liang f2 l acc := by
+  intro n
+  induction n with
+  | zero =>
+    intro f1 f2 l acc hl h1 h2
+    have : l = [] := List.eq_nil_of_length_eq_zero (by omega)
+    subst this
+    cases f1 <;> cases f2 <;> simp [expectedG]
+  | succ n ih =>
+    intro f1 f2 l acc hl h1 h2
+    cases f1 with
+    | zero => omega
+    | succ f1 =>
+      cases f2 with
+      | zero => omega
+      | succ f2 =>
+        cases l with
+        | nil => simp [expectedG]
+        | cons x xs =>
+          have hx : xs.length ≤ n := by simpa using hl
+          have e1 : ∀ a, expectedG lhm rhm liang f1 xs a = expectedG lhm rhm liang f2 xs a :=
+            fun a => ih f1 f2 xs a hx (by omega) (by omega)
+          have e2 : ∀ k a, expectedG lhm rhm liang f1 (xs.drop k) a = expectedG lhm rhm liang f2 (xs.drop k) a :=
+            fun k a => ih f1 f2 _ a (by simp only [List.length_drop]; omega) (by omega) (by omega)
+          have e3 : ∀ k m a, expectedG lhm rhm liang f1 ((xs.drop k).drop m) a
+              = expectedG lhm rhm liang f2 ((xs.drop k).drop m) a :=
+            fun k m a => ih f1 f2 _ a (by simp only [List.length_drop]; omega) (by omega) (by omega)
+          simp only [expectedG, e1, e2, e3]
+
+/-- Stepping over `n` nodes none of which is a glue. -/
+theorem expectedG_skip (lhm rhm : Int) (liang : List Nat → List Nat) :
+    ∀ (n fuel : Nat) (l : List Item) (acc : Nat), n ≤ l.length → (l.take n).all (fun x => !x.isGlue) = true →
+      expectedG lhm rhm liang (fuel + n) l acc
+        = expectedG lhm rhm liang fuel (l.drop n) (acc + (lettersL (l.take n)).length) := by
+  intro n
+  induction n with
+  | zero => intro fuel l acc _ _; simp [lettersL]
+  | succ n ih =>
+    intro fuel l acc hn hall
+    cases l with
+    | nil => simp at hn
+    | cons x xs =>
+      simp only [List.take_succ_cons, List.all_cons, Bool.and_eq_true] at hall
+      rw [show fuel + (n + 1) = (fuel + n) + 1 by omega]
+      simp only [expectedG, hall.1, if_true, List.drop_succ_cons, List.take_succ_cons, lettersL_cons,
+        List.length_append]
+      rw [ih fuel xs _ (by simpa using hn) hall.2]
+      congr 1; omega
+
+/-! ## `expectedM` is the list of positions computed from `findWords` -/
+
+/-- The allowed positions of one reported word as absolute letter offsets. -/
+def wordExp (lhm rhm : Int) (liang : List Nat → List Nat) (inp : List Item) (w : Word) : List Nat :=
+  (wordPositions lhm rhm w.letters.length (liang w.letters)).map
+    (fun p => (lettersL (inp.take w.start)).length + p)
+
+theorem expectedPositions_map (inp : List Item) (ws : List Word) (f : Word → List Nat) :
+    expectedPositions inp ws (ws.map f)
+      = (ws.map (fun w => (f w).map (fun p => (lettersL (inp.take w.start)).length + p))).flatten := by
+  unfold expectedPositions
+  congr 1
+  induction ws with
+  | nil => rfl
+  | cons w ws ih => simp only [List.map_cons, List.zip_cons_cons, ih]
+
+theorem take_append_cons {α : Type} (pre : List α) (x : α) (xs : List α) (k : Nat) :
+    (pre ++ x :: xs).take (pre.length + 1 + k) = pre ++ x :: xs.take k := by
+  induction pre with
+  | nil => simp [Nat.add_comm 1 k, List.take_succ_cons]
+  | cons a pre ih =>
+    simp only [List.cons_append, List.length_cons]
+    rw [show pre.length + 1 + 1 + k = (pre.length + 1 + k) + 1 by omega, List.take_succ_cons, ih]
+
+theorem expectedG_scan (lhm rhm : Int) (liang : List Nat → List Nat) :
+    ∀ (fuel : Nat) (pre suf : List Item), suf.length < fuel →
+      expectedG lhm rhm liang fuel suf (lettersL pre).length
+        = ((scan false fuel pre.length suf).map (wordExp lhm rhm liang (pre ++ suf))).flatten := by
+  intro fuel
+  induction fuel with
+  | zero => intro pre suf h; omega
+  | succ fuel ih =>
+    intro pre suf hfuel
+    cases suf with
+    | nil => simp [expectedG, scan]
+    | cons x xs =>
+      have hxs : xs.length < fuel := by simpa using hfuel
+      simp only [expectedG, scan]
+      -- stepping over `x` and `k` further nodes
+      have step : ∀ k, k ≤ xs.length →
+          expectedG lhm rhm liang fuel (xs.drop k) ((lettersL pre).length + (lettersI x).length + (lettersL (xs.take k)).length)
+            = ((scan false fuel (pre.length + 1 + k) (xs.drop k)).map (wordExp lhm rhm liang (pre ++ x :: xs))).flatten := by
+        intro k hk
+        have := ih (pre ++ x :: xs.take k) (xs.drop k) (by simp only [List.length_drop]; omega)
+        have e1 : (lettersL (pre ++ x :: xs.take k)).length
+            = (lettersL pre).length + (lettersI x).length + (lettersL (xs.take k)).length := by
+          rw [lettersL_append, lettersL_cons]; simp only [List.length_append]; omega
+        have e2 : (pre ++ x :: xs.take k).length = pre.length + 1 + k := by
+          simp only [List.length_append, List.length_cons, List.length_take]; omega
+        have e3 : pre ++ x :: xs.take k ++ xs.drop k = pre ++ x :: xs := by
+          rw [List.append_assoc, List.cons_append, List.take_append_drop]
+        rw [e1, e2, e3] at this
+        exact this
+      split
+      · have := step 0 (Nat.zero_le _)
+        simpa [lettersL] using this
+      · have hk := takeWhile_drop skippable xs
+        have hkl : (seek false xs 0).1 ≤ xs.length := by
+          rw [seek_spec]
+          have := congrArg List.length hk.2
+          simp only [List.length_take] at this
+          omega
+        generalize hkk : (seek false xs 0).1 = k at *
+        have hcont := step k hkl
+        cases hs2 : (seek false xs 0).2 with
+        | none => simp only; exact hcont
+        | some f =>
+          simp only
+          by_cases he : (gather f (xs.drop k) [] 0).1.isEmpty = true
+          · rw [if_pos he, if_pos he]; exact hcont
+          · rw [if_neg he, if_neg he]
+            by_cases ht : (!terminatorOk ((xs.drop k).drop (gather f (xs.drop k) [] 0).2)) = true
+            · rw [if_pos ht, if_pos ht]; exact hcont
+            · rw [if_neg ht, if_neg ht]
+              -- a word is reported
+              obtain ⟨hgath, hn, -⟩ := gather_eq f (xs.drop k)
+              generalize hnn : longestAdmissible f (xs.drop k) = n at *
+              rw [hgath]
+              simp only
+              have hrest := step (k + n) (by simp only [List.length_drop] at hn; omega)
+              have hw : wordExp lhm rhm liang (pre ++ x :: xs) ⟨pre.length + 1 + k, n, f, lettersL ((xs.drop k).take n)⟩
+                  = (wordPositions lhm rhm (lettersL ((xs.drop k).take n)).length (liang (lettersL ((xs.drop k).take n)))).map
+                      (· + ((lettersL pre).length + (lettersI x).length + (lettersL (xs.take k)).length)) := by
+                simp only [wordExp]
+                rw [take_append_cons, lettersL_append, lettersL_cons]
+                apply List.map_congr_left
+                intro p _
+                simp only [List.length_append]; omega
+              have hlet : (lettersL (xs.take (k + n))).length
+                  = (lettersL (xs.take k)).length + (lettersL ((xs.drop k).take n)).length := by
+                rw [← List.length_append, ← lettersL_append]
+                congr 2
+                rw [List.take_add]
+              have hdrop : xs.drop (k + n) = (xs.drop k).drop n := by rw [List.drop_drop]
+              rw [hlet, hdrop, show pre.length + 1 + (k + n) = pre.length + 1 + k + n by omega, ← Nat.add_assoc] at hrest
+              simp only [List.map_cons, List.flatten_cons, hw]
+              by_cases hp : (wordPositions lhm rhm (lettersL ((xs.drop k).take n)).length (liang (lettersL ((xs.drop k).take n)))).isEmpty = true
+              · rw [if_pos hp]
+                rw [List.isEmpty_iff] at hp
+                rw [hp]
+                simp only [List.map_nil, List.nil_append]
+                rw [← hrest]
+                -- the pass rescans the word (all its nodes are word nodes, none a glue)
+                obtain ⟨-, -, hall⟩ := gather_eq f (xs.drop k)
+                rw [hnn] at hall
+                have hfn : n ≤ fuel := by simp only [List.length_drop] at hn; omega
+                have hskip := expectedG_skip lhm rhm liang n (fuel - n) (xs.drop k)
+                  ((lettersL pre).length + (lettersI x).length + (lettersL (xs.take k)).length) hn
+                  (all_not_glue_of_wordNode f _ hall)
+                rw [show fuel - n + n = fuel by omega] at hskip
+                rw [hskip, Nat.add_assoc _ (lettersL (xs.take k)).length]
+                exact expectedG_fuel lhm rhm liang ((xs.drop k).drop n).length _ _ _ _ (Nat.le_refl _)
+                  (by simp only [List.length_drop] at hn ⊢; omega) (by simp only [List.length_drop]; omega)
+              · rw [if_neg hp, hrest]
+
+/-- `expectedM` (the traversal of the pass) = the positions `chk` computes from `findWords`. -/
+theorem expectedM_eq_findWords (lhm rhm : Int) (liang : List Nat → List Nat) (l : List Item) :
+    expectedM lhm rhm liang l
+      = expectedPositions l (findWords l)
+          ((findWords l).map (fun w => wordPositions lhm rhm w.letters.length (liang w.letters))) := by
+  rw [expectedPositions_map]
+  have := expectedG_scan lhm rhm liang (l.length + 1) [] l (by omega)
+  simp only [lettersL_nil, List.length_nil, List.nil_append] at this
+  exact this
+
 end C14
